@@ -295,17 +295,67 @@ func (in *Interp) runUntil(fr *Frame, stop *ssa.BasicBlock, startSteps int64) bo
 	return true
 }
 
+// regionMergeable scans the blocks between B and its post-dominator J for
+// instructions that can never be part of a merged region.
+func regionMergeable(B, J *ssa.BasicBlock) bool {
+	seen := map[*ssa.BasicBlock]bool{J: true}
+	var work []*ssa.BasicBlock
+	for _, s := range B.Succs {
+		work = append(work, s)
+	}
+	n := 0
+	for len(work) > 0 {
+		b := work[len(work)-1]
+		work = work[:len(work)-1]
+		if seen[b] {
+			continue
+		}
+		seen[b] = true
+		n++
+		if n > 64 || b == B {
+			return false // large region or loop back to the branch
+		}
+		for _, ins := range b.Instrs {
+			switch x := ins.(type) {
+			case *ssa.Defer, *ssa.Go, *ssa.Send, *ssa.MapUpdate, *ssa.Panic, *ssa.Return, *ssa.RunDefers, *ssa.Select:
+				return false
+			case *ssa.Call:
+				if c := x.Call.StaticCallee(); c != nil {
+					nm := c.Name()
+					if len(nm) > 5 && (nm[:5] == "verif" || nm[:6] == "nondet") {
+						switch nm {
+						case "verifTier", "verifB2I", "verifSymbolic", "verifMulFitsInt64", "verifMulFitsUint64", "verifAddFitsUint64", "verifMulAddEqInt64":
+						default:
+							return false
+						}
+					}
+				}
+			}
+		}
+		for _, s := range b.Succs {
+			work = append(work, s)
+		}
+	}
+	return true
+}
+
 // tryMerge attempts to if-convert the If at the end of fr.block.
 func (in *Interp) tryMerge(fr *Frame, x *ssa.If, c *Term) bool {
-	if in.NoMerge || in.spec >= 8 || in.concreteGen != nil {
-		return false
-	}
-	if n := in.mergeFail[x]; n >= 2 {
+	if in.NoMerge || in.spec >= 64 || in.concreteGen != nil {
 		return false
 	}
 	B := fr.block
 	J := in.ipdomOf(fr.fn, B)
 	if J == nil {
+		return false
+	}
+	// static (hence deterministic across workers and re-executions) filter
+	ok, cached := in.mergeStatic[x]
+	if !cached {
+		ok = regionMergeable(B, J)
+		in.mergeStatic[x] = ok
+	}
+	if !ok {
 		return false
 	}
 	// J must begin with phis or be reached without needing values (fine either way)
@@ -438,23 +488,20 @@ func (in *Interp) tryMerge(fr *Frame, x *ssa.If, c *Term) bool {
 	rT := runSide(B.Succs[0], c)
 	fr.prev = savedPrev
 	if !rT.ok {
-		in.mergeFail[x]++
 		in.cellID = base
-		debugf("merge abort at %s: %s", in.pos2str(x.Pos()), rT.why)
+		debugf("merge abort T in %s b%d: %s", fr.fn.Name(), B.Index, rT.why)
 		return false
 	}
 	rF := runSide(B.Succs[1], Not(c))
 	fr.prev = savedPrev
 	if !rF.ok {
-		in.mergeFail[x]++
 		in.cellID = base
-		debugf("merge abort at %s: %s", in.pos2str(x.Pos()), rF.why)
+		debugf("merge abort F in %s b%d: %s", fr.fn.Name(), B.Index, rF.why)
 		return false
 	}
 	for k := range phis {
 		if !mergeable(rT.vals[k], rF.vals[k]) {
-			in.mergeFail[x]++
-			in.cellID = base
+				in.cellID = base
 			return false
 		}
 	}
@@ -480,8 +527,7 @@ func (in *Interp) tryMerge(fr *Frame, x *ssa.If, c *Term) bool {
 				vF = cell.V
 			}
 			if !mergeable(vT, vF) {
-				in.mergeFail[x]++
-				in.cellID = base
+						in.cellID = base
 				return false
 			}
 			cws = append(cws, cw{cell, vT, vF})
